@@ -244,7 +244,11 @@ def _leaf_class(v) -> str:
 def shape(n: cst.CSTNode) -> dict:
     """libcst expression -> abstract syntax of LiteralsOps (Int/Float/Neg/FloatCall/...)."""
     if isinstance(n, cst.Integer):
-        return node("Int", _leaf_class(int(n.value)) if len(n.value) < 4300 else "i_digits")
+        # base 0: decimal / hex / octal / binary literals (power-of-two bases have no digit limit)
+        try:
+            return node("Int", _leaf_class(int(n.value, 0)))
+        except ValueError:  # decimal literal beyond the int string conversion limit
+            return node("Int", "i_digits")
     if isinstance(n, cst.Float):
         return node("Float", _leaf_class(float(n.value)))
     if isinstance(n, cst.UnaryOperation) and isinstance(n.operator, cst.Minus):
